@@ -25,7 +25,7 @@ ULPS = 16.0
 
 
 def budget(tier):
-    return {"shards": 8 if tier == "quick" else 14, "deadline_s": 60 if tier == "quick" else 600}
+    return {"shards": 14, "deadline_s": 60 if tier == "quick" else 600}
 
 
 def _dim_cls(dim):
@@ -107,7 +107,7 @@ def check_triple(ctx, dim, a, b, c, x):
 
 
 def run(ctx):
-    n = 3 if ctx.tier == "quick" else 40
+    n = 20 if ctx.tier == "quick" else 600
     # unit inventory: the library must have exactly the 41 units of the table, in the right dimension
     names = {u.name for u in Unit}
     expect = {u for units in si.DIMENSIONS.values() for u in units}
